@@ -273,7 +273,9 @@ impl<'a> BootInformation<'a> {
     pub fn elf_sections(&self) -> Option<ElfSectionIter> {
         let tag = self.get_tag::<ElfSectionsTag>();
         tag.map(|t| {
-            assert!((t.entry_size() * t.shndx()) <= t.header().size);
+            // Widened: the product of two u32 values from the MBI may not fit
+            // into a u32.
+            assert!((u64::from(t.entry_size()) * u64::from(t.shndx())) <= u64::from(t.header().size));
             t.sections()
         })
     }
